@@ -199,6 +199,17 @@ class Driver:
             "attributes": {"step_count": self.step_count},
         }
 
+    def todict(self) -> dict[str, Any]:
+        """
+        Convert the object to a dictionary (name used by ASE's JSON encoder).
+
+        Returns
+        -------
+        dict[str, Any]
+            The dictionary returned by the `to_dict` method of the object's own class.
+        """
+        return self.to_dict()
+
     @property
     def default_logger(self) -> Logger | None:
         """
